@@ -980,6 +980,100 @@ func (h *H) genHistory(n int) {
 		c.Sample(map[string]interface{}{"class": class, "run": clipStr(e.prefix(len(e.toks)-1), 900), "final": e.answers[len(e.answers)-2], "keys_in_content": len(e.content)})
 	}
 	e.finish(opNames)
+	if r.Chance(30) {
+		start := []byte{}
+		if r.Chance(70) {
+			start = key(true)
+			if r.Chance(30) && len(start) > 0 {
+				start = start[:r.Intn(len(start)+1)]
+			}
+		}
+		e.iterProtocol(start, 10+r.Intn(60), r.Chance(70))
+	}
+}
+
+// iterProtocol walks the NodeIterator protocol on the trie as the history left it (nothing may follow:
+// NodeIterator hashes the trie) and compares every step with the state-machine model, then checks the
+// key/value iteration from `start` against the sorted reference content (direct oracle).
+func (e *exec) iterProtocol(start []byte, steps int, mostlyDescend bool) {
+	c := e.h.c
+	r := c.Rng
+	flags := make([]byte, steps)
+	for i := range flags {
+		flags[i] = '1'
+		if (mostlyDescend && r.Chance(15)) || (!mostlyDescend && r.Chance(50)) {
+			flags[i] = '0'
+		}
+	}
+	hist := strings.Join(e.toks, " ")
+	var outs []string
+	if p, pv := vh.CatchPanic(func() {
+		it := e.t.NodeIterator(start)
+		for _, f := range flags {
+			moved := it.Next(f == '1')
+			leaf := "-"
+			if it.Leaf() {
+				if pp, _ := vh.CatchPanic(func() { leaf = "L" + hx(it.LeafKey()) + "=" + hx(it.LeafBlob()) }); pp {
+					leaf = "Lpanic"
+				}
+			}
+			es := "ok"
+			if err := it.Error(); err != nil {
+				es = errName(err)
+			}
+			hsh, par := it.Hash(), it.Parent()
+			mv := "F"
+			if moved {
+				mv = "T"
+			}
+			outs = append(outs, mv+","+hx(it.Path())+","+hx(hsh[:])+","+hx(par[:])+","+leaf+","+es)
+		}
+	}); p {
+		c.Violate(panicSig("NodeIterator", false, pv, sha16(hist)+":"+vh.Hex(start)), "NodeIterator panics: "+fmt.Sprint(pv),
+			map[string]interface{}{"run": "run " + hist, "start": vh.Hex(start), "flags": string(flags)})
+		return
+	}
+	obs := strings.Join(outs, ";")
+	line := "niter " + vh.Hex(start) + " " + string(flags) + " " + hist
+	c.Eval("iterator-protocol", sha16(line))
+	e.h.ask(line, func(m string) { e.h.corr("NodeIterator.Next/Path/Hash/Parent/Leaf~it_next", clipStr(line, 1500), obs, m) })
+	// key/value iteration from start: direct oracle = the reference content with path >= start, in path order
+	var got []string
+	if p, pv := vh.CatchPanic(func() {
+		it := trie.NewIterator(e.t.NodeIterator(start))
+		for it.Next() {
+			got = append(got, hx(it.Key)+"="+hx(it.Value))
+		}
+	}); p {
+		c.Violate(panicSig("Iterator", false, pv, sha16(hist)+":"+vh.Hex(start)), "Iterator from a start key panics: "+fmt.Sprint(pv),
+			map[string]interface{}{"run": "run " + hist, "start": vh.Hex(start)})
+		return
+	}
+	startPath := trie.VerifKeybytesToHex(start)
+	startPath = startPath[:len(startPath)-1]
+	var want []string
+	type ent struct {
+		path []byte
+		s    string
+	}
+	var ents []ent
+	for k, v := range e.content {
+		pth := trie.VerifKeybytesToHex([]byte(k))
+		if bytes.Compare(pth, startPath) >= 0 {
+			ents = append(ents, ent{pth, hx([]byte(k)) + "=" + hx(v)})
+		}
+	}
+	sort.Slice(ents, func(a, b int) bool { return bytes.Compare(ents[a].path, ents[b].path) < 0 })
+	for _, en := range ents {
+		want = append(want, en.s)
+	}
+	gs, ws := strings.Join(got, ","), strings.Join(want, ",")
+	if gs != ws {
+		c.Violate("iterate-from-differs-from-content/"+sha16(hist+vh.Hex(start)), "iteration from a start key is not the content at or after it, in path order",
+			map[string]interface{}{"run": "run " + hist, "start": vh.Hex(start), "observed": gs, "expected": ws})
+	}
+	l2 := "iterfrom " + vh.Hex(start) + " " + hist
+	e.h.ask(l2, func(m string) { e.h.corr("Iterator(start)~trie_iterate_from", clipStr(l2, 1500), "i:"+gs, m) })
 }
 
 // ---------------------------------------------------------------- malformed nodes
@@ -1317,9 +1411,10 @@ func (h *H) encodings() {
 // ---------------------------------------------------------------- SecureTrie and DeriveSha
 
 var secureNames = map[byte]string{
-	'u': "SecureTrie.TryUpdate~trie_update(keccak keys)", 'h': "SecureTrie.Hash~trie_hash(keccak keys)",
-	'c': "SecureTrie.Commit~trie_commit(keccak keys)", 'g': "SecureTrie.TryGet~trie_get(keccak keys)",
-	'd': "SecureTrie.TryDelete~trie_delete(keccak keys)",
+	'u': "SecureTrie.TryUpdate~sec_update", 'h': "SecureTrie.Hash~sec_hash",
+	'c': "SecureTrie.Commit~sec_commit", 'g': "SecureTrie.TryGet~sec_get",
+	'd': "SecureTrie.TryDelete~sec_delete",
+	'k': "SecureTrie.GetKey~sec_getkey", 'r': "NewSecure~sec_new",
 }
 
 // secureHistory generates a SecureTrie history as plain tokens (keys un-hashed); a leading '*'
@@ -1357,12 +1452,21 @@ func (h *H) secureHistory(forceReuse bool) {
 			plain = append(plain, mark+"u:"+vh.Hex(k)+":"+vh.Hex(genValue(r, false)))
 		case p < 65:
 			plain = append(plain, mark+"d:"+vh.Hex(k))
-		case p < 80:
+		case p < 76:
 			plain = append(plain, mark+"g:"+vh.Hex(k))
-		case p < 92:
+		case p < 82:
+			hk := crypto.Keccak256(k)
+			if r.Chance(10) {
+				hk = r.Bytes(32)
+			}
+			plain = append(plain, "k:"+vh.Hex(hk))
+		case p < 91:
 			plain = append(plain, "h")
 		default:
 			plain = append(plain, "c")
+			if r.Chance(25) {
+				plain = append(plain, fmt.Sprintf("r:latest:%d", r.Intn(3)))
+			}
 		}
 	}
 	class := "secure"
@@ -1383,6 +1487,9 @@ func (h *H) runSecure(class string, plain []string) {
 		return
 	}
 	content := map[string][]byte{}
+	commitContent := map[string][]byte{}
+	preimages := map[string][]byte{} // hash -> key currently in the SecureTrie's cache (oracle for GetKey)
+	var lastCommit common.Hash
 	var toks, answers []string
 	kbuf := make([]byte, 96)
 	done := 0
@@ -1398,7 +1505,7 @@ func (h *H) runSecure(class string, plain []string) {
 		shared := strings.HasPrefix(pt, "*")
 		parts := strings.Split(strings.TrimPrefix(pt, "*"), ":")
 		var k, hk, v []byte
-		if len(parts) > 1 {
+		if len(parts) > 1 && parts[0] != "r" {
 			k0 := vh.UnHex(parts[1])
 			hk = crypto.Keccak256(k0)
 			k = k0
@@ -1407,11 +1514,43 @@ func (h *H) runSecure(class string, plain []string) {
 				k = kbuf[:len(k0):len(k0)]
 			}
 		}
-		if len(parts) > 2 {
+		if len(parts) > 2 && parts[0] != "r" {
 			v = vh.UnHex(parts[2])
 		}
 		ans := ""
 		switch parts[0] {
+		case "k":
+			var got []byte
+			if pp, pv := vh.CatchPanic(func() { got = st.GetKey(k) }); pp {
+				ans = "panic"
+				viol("panic/SecureTrie.GetKey/", fmt.Sprint(pv), nil)
+			} else {
+				ans = "v:" + vh.Hex(got)
+				if want, ok := preimages[string(k)]; ok && !bytes.Equal(got, want) {
+					viol("getkey-differs-from-preimage/", "SecureTrie.GetKey does not return the key that was stored under this hash", map[string]interface{}{"hash": parts[1], "observed": ans, "expected": vh.Hex(want)})
+				}
+			}
+			toks = append(toks, "k:"+parts[1])
+		case "r":
+			root := lastCommit
+			if parts[1] != "latest" {
+				root = common.BytesToHash(vh.UnHex(parts[1]))
+			}
+			lim, _ := strconv.Atoi(parts[2])
+			var st2 *trie.SecureTrie
+			var err error
+			if pp, pv := vh.CatchPanic(func() { st2, err = trie.NewSecure(root, triedb, uint16(lim)) }); pp {
+				ans = "panic"
+				viol("panic/NewSecure/", fmt.Sprint(pv), nil)
+			} else if err != nil {
+				ans = errName(err)
+			} else {
+				ans = "ok"
+				st = st2
+				content = copyContent(commitContent)
+			}
+			toks = append(toks, "r:"+vh.Hex(root[:])+":"+parts[2])
+			plain[i] = "r:" + vh.Hex(root[:]) + ":" + parts[2]
 		case "u", "d":
 			var err error
 			op := "SecureTrie.TryUpdate"
@@ -1436,11 +1575,15 @@ func (h *H) runSecure(class string, plain []string) {
 				} else {
 					content[string(hk)] = v
 				}
+				if parts[0] == "u" {
+					preimages[string(hk)] = vh.UnHex(parts[1]) // the last key stored under this hash in the cache
+				}
 			}
 			if parts[0] == "d" {
-				toks = append(toks, "d:"+vh.Hex(hk))
+				delete(preimages, string(hk)) // dropped from the cache; an older committed preimage may still answer
+				toks = append(toks, "d:"+parts[1])
 			} else {
-				toks = append(toks, "u:"+vh.Hex(hk)+":"+vh.Hex(v))
+				toks = append(toks, "u:"+parts[1]+":"+vh.Hex(v))
 			}
 		case "g":
 			var got []byte
@@ -1456,7 +1599,7 @@ func (h *H) runSecure(class string, plain []string) {
 					viol("get-differs-from-content/", "SecureTrie.TryGet differs from the content written", map[string]interface{}{"key": parts[1], "observed": ans, "expected": "v:" + vh.Hex(content[string(hk)])})
 				}
 			}
-			toks = append(toks, "g:"+vh.Hex(hk))
+			toks = append(toks, "g:"+parts[1])
 		default:
 			commit := parts[0] == "c"
 			var root common.Hash
@@ -1474,6 +1617,10 @@ func (h *H) runSecure(class string, plain []string) {
 				ans = errName(err)
 			} else {
 				ans = "r:" + vh.Hex(root[:])
+				if commit {
+					lastCommit = root
+					commitContent = copyContent(content)
+				}
 				if rb, ok := rebuildRoot(content); !ok || rb != root {
 					viol("root-differs-from-sorted-rebuild/", "SecureTrie root differs from a plain trie over the hashed keys", map[string]interface{}{"root": vh.Hex(root[:]), "rebuild_root": vh.Hex(rb[:]), "content": contentString(content)})
 				}
@@ -1487,7 +1634,7 @@ func (h *H) runSecure(class string, plain []string) {
 		}
 		answers = append(answers, ans)
 	}
-	line := "run " + strings.Join(toks, " ")
+	line := "srun " + strings.Join(toks, " ")
 	c.Eval(class, sha16(line)+sha16(line+"#"))
 	h.ask(line, func(m string) {
 		outs := strings.Split(m, ";")
@@ -1535,6 +1682,17 @@ func (h *H) deriveSha(n int) {
 		h.corr("DeriveSha~mpt_root", clipStr(cs, 1500), obs, m)
 		specRootOracle(c, fmt.Sprintf("DeriveSha(N=%d)", n), cs, obs, m, map[string]interface{}{"content": clipStr(cs, 200000), "go_root": obs, "n": n})
 	})
+	if n <= 300 { // the code-shaped loop (Import/DeriveShaCode.v) on the same list
+		items := make([]string, len(l))
+		for i := range l {
+			items[i] = vh.Hex(l[i])
+		}
+		arg := "-"
+		if len(items) > 0 {
+			arg = strings.Join(items, ",")
+		}
+		h.ask("dsha "+arg, func(m string) { h.corr("DeriveSha~derive_sha_code", fmt.Sprintf("N=%d", n), obs, m) })
+	}
 }
 
 // ---------------------------------------------------------------- reference node sizes (boundary coverage)
@@ -1875,6 +2033,11 @@ func main() {
 			"*u:" + vh.Hex(k1) + ":0x0101", "*u:" + vh.Hex(k2) + ":0x0202", "*g:" + vh.Hex(k1), "*g:" + vh.Hex(k2), "h",
 			"*g:" + vh.Hex(k3), "*u:" + vh.Hex(k3) + ":0x0303", "*d:" + vh.Hex(k1), "*g:" + vh.Hex(k2), "*g:" + vh.Hex(k1), "c",
 			"g:" + vh.Hex(k3), "*u:" + vh.Hex(k2) + ":0x", "*g:" + vh.Hex(k3), "h"})
+		// preimages: GetKey after update, after delete without commit (cache entry dropped), after commit + delete (store answers)
+		h1, h2 := vh.Hex(crypto.Keccak256(k1)), vh.Hex(crypto.Keccak256(k2))
+		h.runSecure("secure/getkey/directed", []string{
+			"u:" + vh.Hex(k1) + ":0x0101", "k:" + h1, "d:" + vh.Hex(k1), "k:" + h1, "u:" + vh.Hex(k2) + ":0x0202", "c", "k:" + h2,
+			"d:" + vh.Hex(k2), "k:" + h2, "u:" + vh.Hex(k1) + ":0x", "k:" + h1, "c", "r:latest:1", "k:" + h1, "k:" + h2, "g:" + vh.Hex(k2)})
 	}
 	for i := 0; i < c.Scale(12, 120); i++ {
 		h.secureHistory(i < 3)
